@@ -602,9 +602,51 @@ pub fn gen_dag(rng: &mut Rng, n: usize, family: Family) -> Dag {
 }
 
 /// Occurs-check seeds and sharing towers, parameterised by depth.
+pub const SPECIAL_KINDS: u64 = 8;
+
 pub fn special_dag(rng: &mut Rng, kind: u64, depth: usize) -> Dag {
     let mut d = Dag::default();
-    match kind % 6 {
+    match kind % SPECIAL_KINDS {
+        6 => {
+            // a doubling tower over a FREE type (witness / iden), then a clash: the error has to display a
+            // deeply shared incomplete type
+            let mut cur = d.push(if rng.bool() { Op::Witness(None) } else { Op::Iden });
+            for _ in 0..depth.min(45) {
+                cur = d.push(Op::Pair(cur, cur));
+            }
+            let u1 = d.push(Op::Unit);
+            let u2 = d.push(Op::Unit);
+            let clash = match rng.below(3) {
+                0 => d.push(Op::Case(u1, u2)),
+                1 => {
+                    let j = d.push(Op::InjL(u1));
+                    d.push(Op::Case(j, u2))
+                }
+                _ => d.push(Op::Word(3, vec![0xa5])),
+            };
+            // case needs (A+B)*C and gets a product whose first component is a product (clash) when depth >= 2;
+            // the word needs source 1
+            d.push(Op::Comp(cur, clash));
+        }
+        7 => {
+            // a doubling tower whose bit width saturates (2^64 and beyond), then used inside a sum
+            let base = d.push(Op::Unit);
+            let mut cur = d.push(if rng.bool() { Op::InjL(base) } else { Op::Word(0, vec![0x80]) });
+            let n = 55 + depth % 16;
+            for _ in 0..n {
+                cur = d.push(Op::Pair(cur, cur));
+            }
+            cur = match rng.below(3) {
+                0 => d.push(Op::InjL(cur)),
+                1 => d.push(Op::InjR(cur)),
+                _ => {
+                    let j = d.push(Op::InjR(cur));
+                    d.push(Op::Pair(j, cur))
+                }
+            };
+            let u = d.push(Op::Unit);
+            d.push(Op::Comp(cur, u));
+        }
         0 => {
             // case (drop iden) iden  wrapped `depth` times
             let i1 = d.push(Op::Iden);
